@@ -102,7 +102,7 @@ def main():
         lines.append("| %s | %s | %s | %s | %s | %s / %s | **%s** | %s |" % (
             sid, m["property"] + (" (judged by %s)" % m["checked_by"] if m.get("checked_by") else ""), m.get("summary", "").replace("|", "/"), m.get("needs", "").replace("|", "/"),
             "passes" if r.get("baseline_passes") else "FAILS", r.get("demo_on_unchanged"), r.get("demo_with_change"),
-            "caught" if r.get("caught") else ("not caught - " + m["not_pursued"] if m.get("not_pursued") else "MISSED"),
+            "caught" if r.get("caught") else ("not caught - " + m["not_pursued"] if m.get("not_pursued") else ("MISSED by the quick tier - " + m["note"] if m.get("note") else "MISSED")),
             "; ".join((r.get("check") or {}).get("keys", [])[:3]).replace("|", "/")))
     open(os.path.join(base, "SUMMARY.md"), "w").write("\n".join(lines) + "\n")
 
